@@ -9,7 +9,8 @@ EXTENDS GeoFunc, Emit
 CONSTANTS Fam,        \* family of cases: "base" "unary" "binary" "ctor"
           Thorough,   \* BOOLEAN: larger pools
           NParts, Part, \* this run handles the cases with index = Part (mod NParts)
-          Seed        \* varies the coefficients
+          Seed,       \* varies the coefficients
+          MaxD        \* 2: Hessians everywhere possible; 1: fallback without Hessians (32-bit overflow of the exact arithmetic)
 
 VARIABLE cid
 
@@ -43,38 +44,13 @@ BaseObj(kind, sel, osh, sd) ==     \* sel: pool indices per axis
 Leaf(kind, sel, osh, sd) == [op |-> "obj", obj |-> BaseObj(kind, sel, osh, sd)]
 
 -------------------------------------------------------------------------------
-(* recipes *)
-ArgAt(arg, c) == IF Len(arg) = 1 THEN arg[1] ELSE arg[((c - 1) % Len(arg)) + 1]     \* numpy broadcasting (last axis)
-ArgVec(arg, nc) == Tab(nc, LAMBDA c : ArgAt(arg, c))
-
-RECURSIVE Build(_)
-Build(r) ==
-  CASE r.op = "obj"       -> r.obj
-    [] r.op = "translate" -> LET G == Build(r.a) IN Translate(G, ArgVec(r.arg, Len(G.C)))
-    [] r.op = "scale"     -> LET G == Build(r.a) IN Scale(G, ArgVec(r.arg, Len(G.C)))
-    [] r.op = "matrix"    -> ApplyMatrix(Build(r.a), r.A)
-    [] r.op = "rotate"    -> Rotate2D(Build(r.a), r.cs)
-    [] r.op = "getint"    -> GetItemInt(Build(r.a), r.i)
-    [] r.op = "getlist"   -> GetItemList(Build(r.a), r.is)
-    [] r.op = "asnurbs"   -> AsNurbs(Build(r.a))
-    [] r.op = "asvector"  -> AsVector(Build(r.a))
-    [] r.op = "copy"      -> CopyOf(Build(r.a))
-    [] r.op = "boundary"  -> Boundary(Build(r.a), r.ax, r.side)
-    [] r.op = "tp"        -> TensorProduct(AsVector(Build(r.a)), AsVector(Build(r.b)))
-    [] r.op = "osum"      -> OuterSum(Build(r.a), Build(r.b))
-    [] r.op = "oprod"     -> OuterProduct(Build(r.a), Build(r.b))
-    [] r.op = "cyl"       -> Cylinderize(AsVector(Build(r.a)), r.z0, r.z1, r.s0, r.s1)
-    [] r.op = "line"      -> LET L == LineSegment(r.x0, r.x1, r.s0, r.s1, r.n) IN L
-    [] r.op = "unitcube"  -> UnitCube(r.dim, r.n)
-    [] r.op = "identity"  -> Identity(r.ext)
-    [] r.op = "arc"       -> Arc(r.m, r.cs, r.r)
-
+(* recipes: see GeoFunc!Build *)
 -------------------------------------------------------------------------------
 (* grids: per axis a subset of the sample points (breakpoints, quarter points, mid points) of the knot vector *)
 AxisGrid(kv, den, mode, a) ==
-  LET sp == IF mode = "h" THEN HalfPoints(kv) ELSE SamplePoints(kv)
+  LET sp == IF mode \in {"h", "f"} THEN HalfPoints(kv) ELSE SamplePoints(kv)
       L  == Len(sp)
-      S  == IF mode = "f" THEN {1, 2 + ((2 * a + 1) % (L - 2)), L}
+      S  == IF mode = "f" THEN {1, 2 + (a % (L - 2)), L}
             ELSE IF mode = "g" THEN {1, 2 + (a % 2), L - 1 - ((a + 1) % 2), L} \cup {m \in 1..L : (m % 4) = (a % 4)}
             ELSE 1..L
       ix == SortedSeq(S)
@@ -121,25 +97,40 @@ BaseDecl(G, grid, S) ==
               /\ \A b2 \in 1..D : Sd.jac[b2] = S.hess[HessIndex(D, b, b2)]
        /\ \A b \in 1..D : G.ps[D - b + 1] = 0 => \A c \in 1..Len(G.C) : \A J \in 1..S.npts : IsZero(S.jac[b][c][J])
 
+(* exact circle predicates that avoid squaring large numerators (32-bit integers): with s = tan(phi/2) = y/(r+x),
+   (x, y) = r ((1-s^2)/(1+s^2), 2s/(1+s^2)) is the rational parametrisation of the circle of radius r *)
+HalfTan(x, y, r) == Div(y, Add(r, x))
+OnCircle(x, y, r) ==
+  IF IsZero(Add(r, x)) THEN IsZero(y)
+  ELSE LET s == HalfTan(x, y, r)  s2 == Mul(s, s)  den == Add(One, s2) IN
+       /\ x = Div(Mul(r, Sub(One, s2)), den)
+       /\ y = Div(Mul(R(2), Mul(r, s)), den)
+AngleClass(p) == IF Sign(p[2]) = 1 \/ (Sign(p[2]) = 0 /\ Sign(p[1]) = 1) THEN 0 ELSE IF Sign(p[2]) = 0 THEN 1 ELSE 2
+AngleLt(p, q, r) ==       \* polar angle of p < polar angle of q, angles in [0, 2 pi), both on the circle of radius r
+  \/ AngleClass(p) < AngleClass(q)
+  \/ /\ AngleClass(p) = AngleClass(q) /\ AngleClass(p) # 1
+     /\ Lt(HalfTan(p[1], p[2], r), HalfTan(q[1], q[2], r))
+
 AllZero(rows) == \A c \in 1..Len(rows) : \A J \in 1..Len(rows[c]) : IsZero(rows[c][J])
 
 LinearDecl(S, Sa, nc, f(_, _, _)) ==     \* every derivative of the result = f(derivative rows of the operand, c, J)
   /\ \A b \in 1..Len(S.jac) : \A c \in 1..nc : \A J \in 1..S.npts : S.jac[b][c][J] = f(Sa.jac[b], c, J)
   /\ \A h \in 1..Len(S.hess) : \A c \in 1..nc : \A J \in 1..S.npts : S.hess[h][c][J] = f(Sa.hess[h], c, J)
 
-Decl(r, G, grid, S) ==
-  LET D == SDim(G)  nc == Len(G.C)  np == S.npts IN
+Decl(r, G, grid, S, md) ==
+  LET D == SDim(G)  nc == Len(G.C)  np == S.npts
+      Sh(X, g) == SheetD(X, g, md) IN
   CASE r.op = "obj" -> BaseDecl(G, grid, S)
     [] r.op = "translate" ->
-         LET Sa == Sheet(Build(r.a), grid) IN
+         LET Sa == Sh(Build(r.a), grid) IN
          /\ \A c \in 1..nc : \A J \in 1..np : S.val[c][J] = Add(Sa.val[c][J], ArgAt(r.arg, c))
          /\ S.jac = Sa.jac /\ S.hess = Sa.hess
     [] r.op = "scale" ->
-         LET Sa == Sheet(Build(r.a), grid)  f(rows, c, J) == Mul(rows[c][J], ArgAt(r.arg, c)) IN
+         LET Sa == Sh(Build(r.a), grid)  f(rows, c, J) == Mul(rows[c][J], ArgAt(r.arg, c)) IN
          /\ \A c \in 1..nc : \A J \in 1..np : S.val[c][J] = f(Sa.val, c, J)
          /\ LinearDecl(S, Sa, nc, f)
     [] r.op \in {"matrix", "rotate"} ->
-         LET Sa == Sheet(Build(r.a), grid)
+         LET Sa == Sh(Build(r.a), grid)
              A  == IF r.op = "matrix" THEN r.A ELSE RotMat(r.cs)
              f(rows, c, J) == FoldLeft(LAMBDA acc, k : Add(acc, Mul(A[c][k], rows[k][J])), Zero, Ints(Len(rows)))
          IN /\ nc = Len(A) /\ G.osh = <<Len(A)>>
@@ -147,13 +138,13 @@ Decl(r, G, grid, S) ==
             /\ LinearDecl(S, Sa, nc, f)
             /\ r.op = "rotate" => IsCS(r.cs)
     [] r.op = "getint" ->
-         LET Sa == Sheet(Build(r.a), grid)  f(rows, c, J) == rows[r.i + 1][J] IN
+         LET Sa == Sh(Build(r.a), grid)  f(rows, c, J) == rows[r.i + 1][J] IN
          /\ G.osh = <<>> /\ S.val[1] = Sa.val[r.i + 1] /\ LinearDecl(S, Sa, 1, f)
     [] r.op = "getlist" ->
-         LET Sa == Sheet(Build(r.a), grid)  f(rows, c, J) == rows[r.is[c] + 1][J] IN
+         LET Sa == Sh(Build(r.a), grid)  f(rows, c, J) == rows[r.is[c] + 1][J] IN
          /\ G.osh = <<Len(r.is)>> /\ \A c \in 1..nc : S.val[c] = Sa.val[r.is[c] + 1] /\ LinearDecl(S, Sa, nc, f)
     [] r.op \in {"asnurbs", "asvector", "copy"} ->
-         LET Ga == Build(r.a)  Sa == Sheet(Ga, grid) IN
+         LET Ga == Build(r.a)  Sa == Sh(Ga, grid) IN
          /\ S.val = Sa.val /\ S.jac = Sa.jac /\ S.hess = Sa.hess
          /\ r.op = "asnurbs" => IsNurbs(G) /\ G.osh = Ga.osh
          /\ r.op = "asvector" => G.osh = (IF Ga.osh = <<>> THEN <<1>> ELSE Ga.osh)
@@ -164,21 +155,21 @@ Decl(r, G, grid, S) ==
              Da  == SDim(Ga)
              sup == SupportOf(Ga)[ax]
              ga  == InsertAt(grid, ax, <<IF r.side = 0 THEN sup[1] ELSE sup[2]>>)
-             Sa  == Sheet(Ga, ga)
+             Sa  == Sh(Ga, ga)
              bn  == Da - ax + 1                       \* the normal coordinate of the operand
              up(b) == IF b < bn THEN b ELSE b + 1     \* coordinate of the face -> coordinate of the operand
          IN /\ D = Da - 1 /\ G.osh = Ga.osh /\ G.kind = Ga.kind
             /\ S.val = Sa.val
             /\ \A b \in 1..D : S.jac[b] = Sa.jac[up(b)]
-            /\ \A b1 \in 1..D : \A b2 \in b1..D : S.hess[HessIndex(D, b1, b2)] = Sa.hess[HessIndex(Da, up(b1), up(b2))]
+            /\ md >= 2 => \A b1 \in 1..D : \A b2 \in b1..D : S.hess[HessIndex(D, b1, b2)] = Sa.hess[HessIndex(Da, up(b1), up(b2))]
     [] r.op \in {"tp", "osum", "oprod", "cyl"} ->
          LET G1 == IF r.op = "cyl" THEN LineSegment(<<r.z0>>, <<r.z1>>, r.s0, r.s1, 1)
                    ELSE IF r.op = "tp" THEN AsVector(Build(r.a)) ELSE Build(r.a)
              G2 == IF r.op = "cyl" THEN AsVector(Build(r.a))
                    ELSE IF r.op = "tp" THEN AsVector(Build(r.b)) ELSE Build(r.b)
              D1 == SDim(G1)  D2 == SDim(G2)
-             S1 == Sheet(G1, SubSeq(grid, 1, D1))
-             S2 == Sheet(G2, SubSeq(grid, D1 + 1, D))
+             S1 == Sh(G1, SubSeq(grid, 1, D1))
+             S2 == Sh(G2, SubSeq(grid, D1 + 1, D))
              n2 == S2.npts
              c1 == Len(G1.C)  c2 == Len(G2.C)
              \* coordinates 1..D2 belong to G2 (x part), D2+1..D to G1
@@ -208,7 +199,7 @@ Decl(r, G, grid, S) ==
          /\ \A c \in 1..nc : \A J \in 1..np :
               LET t == grid[1][J]  sl == Div(Sub(r.x1[c], r.x0[c]), Sub(r.s1, r.s0)) IN
               /\ S.val[c][J] = Add(r.x0[c], Mul(Sub(t, r.s0), sl))
-              /\ S.jac[1][c][J] = sl /\ IsZero(S.hess[1][c][J])
+              /\ S.jac[1][c][J] = sl /\ (md >= 2 => IsZero(S.hess[1][c][J]))
     [] r.op \in {"unitcube", "identity"} ->      \* the identity map of the box; all second derivatives vanish
          /\ ~IsNurbs(G) /\ G.osh = <<D>> /\ \A a \in 1..D : G.ps[a] = 1
          /\ r.op = "unitcube" => D = r.dim /\ \A a \in 1..D : NumSpans(G.kvs[a]) = r.n /\ SupportOf(G)[a] = <<Zero, One>>
@@ -220,19 +211,20 @@ Decl(r, G, grid, S) ==
     [] r.op = "arc" ->            \* on the circle of radius r; knots and span mid points at the angles k theta; ccw
          LET m == r.m
              P(J) == <<S.val[1][J], S.val[2][J]>>
-             cross(p, q) == Sub(Mul(p[1], q[2]), Mul(p[2], q[1]))
-             r2 == Mul(r.r, r.r)
          IN /\ IsCS(r.cs) /\ Sign(r.cs[1]) = 1 /\ Sign(r.cs[2]) = 1 /\ D = 1
             /\ SupportOf(G) = << <<Zero, One>> >>
-            /\ \A J \in 1..np : Add(Mul(P(J)[1], P(J)[1]), Mul(P(J)[2], P(J)[2])) = r2          \* x^2 + y^2 = r^2
+            /\ \A J \in 1..np : OnCircle(P(J)[1], P(J)[2], r.r)                                 \* x^2 + y^2 = r^2
             /\ \A J \in 1..np :                                   \* tangent orthogonal to the radius
-                 IsZero(Add(Mul(P(J)[1], S.jac[1][1][J]), Mul(P(J)[2], S.jac[1][2][J])))
+                 LET dx == S.jac[1][1][J]  dy == S.jac[1][2][J] IN      \* x x' + y y' = 0 without large products
+                 IF IsZero(dy) THEN IsZero(P(J)[1]) \/ IsZero(dx)
+                 ELSE IF IsZero(P(J)[1]) THEN IsZero(P(J)[2])
+                 ELSE Div(dx, dy) = Neg(Div(P(J)[2], P(J)[1]))
             /\ \A J \in 1..np : \A k \in 0..(2 * m) :             \* t = k/(2m)  |->  angle k theta
                  grid[1][J] = Q(k, 2 * m) =>
                     LET a == MultCS(r.cs, k) IN P(J) = <<Mul(r.r, a[1]), Mul(r.r, a[2])>>
             /\ \E J \in 1..np : grid[1][J] = Zero
             /\ \E J \in 1..np : grid[1][J] = One
-            /\ \A J \in 1..(np - 1) : Sign(cross(P(J), P(J + 1))) = 1     \* counterclockwise, steps < pi
+            /\ \A J \in 1..(np - 1) : AngleLt(P(J), P(J + 1), r.r)        \* the angle increases strictly within [0, 2 pi)
 
 -------------------------------------------------------------------------------
 (* case tables *)
@@ -253,7 +245,126 @@ BaseCases ==
       sel    == SelectSeq(combos, ok)
   IN Tab(Len(sel), LAMBDA i : [recipe |-> Leaf(sel[i][2][2], sel[i][1], sel[i][2][1], i), gm |-> GridModeFor(Len(sel[i][1]))])
 
-Cases == CASE Fam = "base" -> BaseCases
+(* unary operations on an operand space `sel`; sd varies the coefficients *)
+Half == Q(1, 2)
+UnaryFor(kind, sel, sd) ==
+  LET s  == Leaf(kind, sel, <<>>, sd)
+      v1 == Leaf(kind, sel, <<1>>, sd + 3)
+      v2 == Leaf(kind, sel, <<2>>, sd + 1)
+      v3 == Leaf(kind, sel, <<3>>, sd + 2)
+      mm == Leaf("bsp", sel, <<2,2>>, sd + 4)
+      D  == Len(sel)
+      bds(x) == FlattenSeq(Tab(D, LAMBDA a : << [op |-> "boundary", a |-> x, ax |-> a - 1, side |-> 0, byname |-> (a % 2 = 0)],
+                                                [op |-> "boundary", a |-> x, ax |-> a - 1, side |-> 1, byname |-> (a % 2 = 1)] >>))
+  IN << [op |-> "translate", a |-> s,  arg |-> <<Q(3, 2)>>, sc |-> TRUE],
+        [op |-> "translate", a |-> v2, arg |-> <<R(-2)>>, sc |-> TRUE],
+        [op |-> "translate", a |-> v2, arg |-> <<Half, R(-3)>>, sc |-> FALSE],
+        [op |-> "translate", a |-> v3, arg |-> <<One, R(2), Q(-1, 3)>>, sc |-> FALSE],
+        [op |-> "scale",     a |-> s,  arg |-> <<R(-2)>>, sc |-> TRUE],
+        [op |-> "scale",     a |-> v2, arg |-> <<Q(3, 2)>>, sc |-> TRUE],
+        [op |-> "scale",     a |-> v2, arg |-> <<R(2), Q(-1, 2)>>, sc |-> FALSE],
+        [op |-> "scale",     a |-> v3, arg |-> <<R(-1), Half, R(3)>>, sc |-> FALSE],
+        [op |-> "matrix",    a |-> v2, A |-> << <<One, R(2)>>, <<R(-1), Half>> >>],
+        [op |-> "matrix",    a |-> v2, A |-> << <<One, Zero>>, <<R(2), One>>, <<R(-1), R(3)>> >>],
+        [op |-> "matrix",    a |-> v3, A |-> << <<One, R(-2), Zero>>, <<Half, One, R(2)>> >>],
+        [op |-> "rotate",    a |-> v2, cs |-> <<Q(3, 5), Q(4, 5)>>],
+        [op |-> "rotate",    a |-> v2, cs |-> <<Zero, One>>],
+        [op |-> "rotate",    a |-> v2, cs |-> <<Q(-4, 5), Q(-3, 5)>>],
+        [op |-> "getint",    a |-> v2, i |-> 0],
+        [op |-> "getint",    a |-> v2, i |-> 1],
+        [op |-> "getint",    a |-> v3, i |-> 2],
+        [op |-> "getlist",   a |-> v3, is |-> <<0, 1>>],
+        [op |-> "getlist",   a |-> v3, is |-> <<2, 0>>],
+        [op |-> "getlist",   a |-> v3, is |-> <<1>>],
+        [op |-> "asnurbs",   a |-> s],
+        [op |-> "asnurbs",   a |-> v2],
+        [op |-> "asvector",  a |-> s],
+        [op |-> "asvector",  a |-> v2],
+        [op |-> "asvector",  a |-> v1],
+        [op |-> "copy",      a |-> s],
+        [op |-> "copy",      a |-> v3] >>
+     \o bds(s) \o bds(v2)
+     \o (IF kind = "bsp"
+         THEN << [op |-> "translate", a |-> mm, arg |-> <<R(2)>>, sc |-> TRUE],
+                 [op |-> "translate", a |-> mm, arg |-> <<One, R(-1)>>, sc |-> FALSE],
+                 [op |-> "scale",     a |-> mm, arg |-> <<R(2), Q(1, 3)>>, sc |-> FALSE],
+                 [op |-> "copy",      a |-> mm],
+                 [op |-> "asnurbs",   a |-> v1] >>
+         ELSE <<>>)
+
+UnarySels == IF Thorough THEN << <<2>>, <<4>>, <<7>>, <<3,2>>, <<5,1>>, <<9,4>>, <<1,5,3>> >> ELSE << <<2>>, <<3,2>> >>
+UnaryCases ==
+  LET ks  == SeqProd2(UnarySels, Kinds)
+      all == FlattenSeq(Tab(Len(ks), LAMBDA i : UnaryFor(ks[i][2], ks[i][1], 10 * i)))
+      extra3 == \* a few operations on a 3-D operand also in the quick tier
+        IF Thorough THEN <<>> ELSE
+        LET v == Leaf("nurbs", <<1,5,3>>, <<3>>, 77)  b == Leaf("bsp", <<1,5,3>>, <<2>>, 78) IN
+        << [op |-> "translate", a |-> v, arg |-> <<One, R(-2), R(3)>>, sc |-> FALSE],
+           [op |-> "matrix", a |-> v, A |-> << <<Zero, One, Zero>>, <<Zero, Zero, R(2)>>, <<R(-1), Zero, One>> >>],
+           [op |-> "boundary", a |-> v, ax |-> 0, side |-> 1, byname |-> TRUE],
+           [op |-> "boundary", a |-> v, ax |-> 1, side |-> 0, byname |-> FALSE],
+           [op |-> "boundary", a |-> b, ax |-> 2, side |-> 1, byname |-> TRUE],
+           [op |-> "rotate", a |-> b, cs |-> <<Q(4, 5), Q(-3, 5)>>] >>
+      rs == all \o extra3
+  IN Tab(Len(rs), LAMBDA i : [recipe |-> rs[i], gm |-> "x"])
+
+(* binary operations: G1 on the slow axes (y / z), G2 on the fast axes (x) *)
+BinaryFor(sel1, sel2, k1, k2, sd, full) ==
+  LET L(k, sel, osh, d) == Leaf(k, sel, osh, sd + d)
+      s1 == L(k1, sel1, <<>>, 0)   s2 == L(k2, sel2, <<>>, 1)
+      v1 == L(k1, sel1, <<2>>, 2)  v2 == L(k2, sel2, <<2>>, 3)
+      w1 == L(k1, sel1, <<1>>, 4)  w2 == L(k2, sel2, <<3>>, 5)
+      pairs == IF full THEN << <<s1, s2>>, <<v1, v2>>, <<s1, v2>>, <<v1, s2>>, <<w1, v2>> >> ELSE << <<s1, s2>>, <<v1, v2>> >>
+      tps   == IF full THEN << <<s1, s2>>, <<v1, v2>>, <<s1, v2>>, <<v1, s2>>, <<w1, w2>> >> ELSE << <<v1, s2>> >>
+  IN FlattenSeq(Tab(Len(pairs), LAMBDA i : << [op |-> "osum", a |-> pairs[i][1], b |-> pairs[i][2]],
+                                              [op |-> "oprod", a |-> pairs[i][1], b |-> pairs[i][2]] >>))
+     \o Tab(Len(tps), LAMBDA i : [op |-> "tp", a |-> tps[i][1], b |-> tps[i][2]])
+
+CylFor(kind, sel, sd) ==
+  << [op |-> "cyl", a |-> Leaf(kind, sel, <<2>>, sd), z0 |-> Zero, z1 |-> One, s0 |-> Zero, s1 |-> One, defaults |-> TRUE],
+     [op |-> "cyl", a |-> Leaf(kind, sel, <<2>>, sd + 1), z0 |-> R(-1), z1 |-> Q(3, 2), s0 |-> R(1), s1 |-> R(3), defaults |-> FALSE],
+     [op |-> "cyl", a |-> Leaf(kind, sel, <<>>, sd + 2), z0 |-> R(2), z1 |-> Half, s0 |-> Q(-1, 2), s1 |-> R(1), defaults |-> FALSE] >>
+
+KindPairs == SeqProd2(Kinds, Kinds)
+BinaryCases ==
+  LET sp2 == IF Thorough THEN << <<<<2>>, <<3>>>>, <<<<4>>, <<5>>>>, <<<<7>>, <<1>>>> >> ELSE << <<<<2>>, <<3>>>> >>
+      sp3 == IF Thorough THEN << <<<<1>>, <<3,2>>>>, <<<<3,2>>, <<1>>>>, <<<<5>>, <<1,3>>>> >> ELSE << <<<<1>>, <<3,5>>>>, <<<<3,5>>, <<1>>>> >>
+      c2 == FlattenSeq(Tab(Len(sp2), LAMBDA i : FlattenSeq(Tab(4, LAMBDA k :
+               BinaryFor(sp2[i][1], sp2[i][2], KindPairs[k][1], KindPairs[k][2], 20 * i + 5 * k, TRUE)))))
+      c3 == FlattenSeq(Tab(Len(sp3), LAMBDA i : FlattenSeq(Tab(4, LAMBDA k :
+               BinaryFor(sp3[i][1], sp3[i][2], KindPairs[k][1], KindPairs[k][2], 30 * i + 7 * k, Thorough /\ k = 2)))))
+      cy == CylFor("bsp", <<2>>, 40) \o CylFor("bsp", <<3,5>>, 50)      \* only BSplineFunc offers cylinderize()
+      rs == c2 \o c3 \o cy
+  IN Tab(Len(rs), LAMBDA i : [recipe |-> rs[i], gm |-> "x"])
+
+(* constructors *)
+PythCS == << <<Q(3, 5), Q(4, 5)>>, <<Q(4, 5), Q(3, 5)>> >> \o (IF Thorough THEN << <<Q(12, 13), Q(5, 13)>>, <<Q(15, 17), Q(8, 17)>> >> ELSE <<>>)
+CtorCases ==
+  LET lines ==
+        << [op |-> "line", x0 |-> <<Zero>>, x1 |-> <<One>>, s0 |-> Zero, s1 |-> One, n |-> 1, sc |-> TRUE, defsup |-> TRUE],
+           [op |-> "line", x0 |-> <<R(2)>>, x1 |-> <<R(-1)>>, s0 |-> R(2), s1 |-> R(4), n |-> 2, sc |-> TRUE, defsup |-> FALSE],
+           [op |-> "line", x0 |-> <<One, Zero>>, x1 |-> <<R(3), One>>, s0 |-> Zero, s1 |-> One, n |-> 1, sc |-> FALSE, defsup |-> TRUE],
+           [op |-> "line", x0 |-> <<One, R(-2)>>, x1 |-> <<Half, R(2)>>, s0 |-> R(-1), s1 |-> Half, n |-> 3, sc |-> FALSE, defsup |-> FALSE],
+           [op |-> "line", x0 |-> <<Zero, One, R(2)>>, x1 |-> <<R(3), R(3), R(-3)>>, s0 |-> One, s1 |-> R(3), n |-> 2, sc |-> FALSE, defsup |-> FALSE],
+           [op |-> "line", x0 |-> <<Q(1, 3)>>, x1 |-> <<Q(5, 2)>>, s0 |-> Zero, s1 |-> One, n |-> 4, sc |-> FALSE, defsup |-> TRUE] >>
+      cubes == FlattenSeq(Tab(3, LAMBDA d : Tab(IF Thorough THEN 3 ELSE 2, LAMBDA n :
+                   [op |-> "unitcube", dim |-> d, n |-> n, square |-> FALSE])))
+               \o << [op |-> "unitcube", dim |-> 2, n |-> 1, square |-> TRUE], [op |-> "unitcube", dim |-> 2, n |-> 3, square |-> TRUE] >>
+      ids == << [op |-> "identity", ext |-> << <<One, R(2)>> >>, askv |-> FALSE],
+                [op |-> "identity", ext |-> << <<Zero, R(2)>>, <<R(-1), One>> >>, askv |-> FALSE],
+                [op |-> "identity", ext |-> << <<Half, R(2)>>, <<R(3), R(5)>> >>, askv |-> TRUE],
+                [op |-> "identity", ext |-> << <<Zero, One>>, <<One, R(3)>>, <<R(2), Q(5, 2)>> >>, askv |-> FALSE],
+                [op |-> "identity", ext |-> << <<R(-2), R(-1)>>, <<Zero, R(3)>>, <<One, R(2)>> >>, askv |-> TRUE] >>
+      radii == << One, R(2), Q(3, 2) >>
+      arcs == FlattenSeq(Tab(3, LAMBDA m : FlattenSeq(Tab(Len(PythCS), LAMBDA k : Tab(Len(radii), LAMBDA q :
+                   [op |-> "arc", m |-> m, cs |-> PythCS[k], r |-> radii[q], auto |-> (m # 2 /\ q = 2)])))))
+      rs == lines \o cubes \o ids \o arcs
+  IN Tab(Len(rs), LAMBDA i : [recipe |-> rs[i], gm |-> "x", md |-> IF rs[i].op = "arc" /\ rs[i].m = 3 THEN 1 ELSE 2])
+
+Cases == CASE Fam = "base"   -> BaseCases
+           [] Fam = "unary"  -> UnaryCases
+           [] Fam = "binary" -> BinaryCases
+           [] Fam = "ctor"   -> CtorCases
 
 -------------------------------------------------------------------------------
 Init == cid = 0
@@ -267,10 +378,11 @@ CaseOK ==
   cid # 0 =>
   LET cs   == Cases[cid]
       G    == Build(cs.recipe)
-      grid == GridFor(G, cs.gm)
-      S    == Sheet(G, grid)
+      grid == GridFor(G, IF cs.gm # "x" THEN cs.gm ELSE IF SDim(G) = 2 /\ IsNurbs(G) THEN "h" ELSE GridModeFor(SDim(G)))
+      md   == IF ("md" \in DOMAIN cs /\ cs.md = 1) \/ (Fam # "base" /\ SDim(G) = 3 /\ IsNurbs(G)) THEN 1 ELSE MaxD
+      S    == SheetD(G, grid, md)
   IN /\ WellFormed(G)
-     /\ Decl(cs.recipe, G, grid, S)
+     /\ Decl(cs.recipe, G, grid, S, md)
      /\ Emit("CASE", [id |-> cid, fam |-> Fam, recipe |-> cs.recipe, res |-> ResDesc(G), grid |-> grid,
                       val |-> S.val, jac |-> S.jac, hess |-> S.hess])
 NCases == Len(Cases)
